@@ -152,8 +152,10 @@ class CacheStore(object):
         try:
             shutil.move(tmp_filename, store_filename)
         except (IOError, OSError) as e:
-            # Permission denied
-            if e.errno == errno.EACCES:
+            # Permission denied, or (when the move is a copy across file
+            # systems) the entry was removed by another scanner process
+            # while it was being written
+            if e.errno in (errno.EACCES, errno.ENOENT):
                 self._remove_filename(tmp_filename)
             else:
                 raise
